@@ -1,6 +1,7 @@
 """Builds REAL lazy_dataset objects from a pipeline AST (the same JSON the Lean driver reads)
 and observes them."""
 import itertools
+import common
 import numpy as np
 import lazy_dataset
 from canon import canon, decode, outcome, run_stream
@@ -138,6 +139,7 @@ def build(p, ctx=None):
 
 def observe(p, idx, keys, cycle_k=0, ctx=None):
     """the `pipe` observation record; same shape as the driver's reply"""
+    common.gc_point()
     try:
         ds = build(p, ctx)
     except (KeyboardInterrupt, SystemExit):
